@@ -260,6 +260,14 @@ func c13(c *Ctx) {
 		}
 	}
 
+	// ---- release handler ----
+	dh := "http.(*Server).handleDeleteHalt"
+	c.NilGuardedUses("release/handler-db-nil", dh, p.PlainCalls("litefs.(*Store).DB"), 1, "the DELETE /halt handler releases on the database only after testing that it exists", "an unknown name dereferences nil: the handler panics and the replica's release is answered with a dropped connection")
+	c.ExpectAll("release/handler-id", c.CallArgs(dh, p.PlainCalls("litefs.(*DB).ReleaseHaltLock"), 2), pat("strconv.ParseInt(net/url.(Values).Get(@@, \"id\"), 10, 64)#0"), 1, "the id released is the request's id parameter", "")
+	ph := "http.(*Server).handlePostHalt"
+	c.ExpectAll("pin/handler-id", c.CallArgs(ph, p.PlainCalls("litefs.(*DB).AcquireHaltLock"), 2), pat("strconv.ParseInt(net/url.(Values).Get(@@, \"id\"), 10, 64)#0"), 1, "the id granted is the request's id parameter", "")
+	c.ErrStops("pin/handler-error-no-body", ph, p.PlainCalls("litefs.(*DB).AcquireHaltLock"), p.Calls("(*encoding/json.Encoder).Encode", "encoding/json.(*Encoder).Encode"), 1, "a refused grant is answered with an error, never with a lock body", "")
+
 	// ---- forward-first ----
 	for _, n := range []string{"litefs.(*DB).CommitWAL", "litefs.(*DB).CommitJournal", "litefs.(*DB).Drop"} {
 		short := n[strings.LastIndex(n, ".")+1:]
